@@ -124,8 +124,17 @@ func c06Gen(tier string, seed int64) []core.Case {
 			if fi.Repeated {
 				// undecodable lists with the parties configured for a single verification slot (SetConcurrency(1)): a slot
 				// that is not given back on an error path blocks the next verification
-				for _, how := range []string{"list-short", "list-empty"} {
+				for hi, how := range []string{"list-short", "list-empty", "+1", "zero", "+1"} {
 					f := faultSpec{fi.Type, fi.Field, "", how, []string{"low", "high"}[(k+fiI)%2], false, ""}
+					if hi >= 2 {
+						f.Index = "first" // length prefixes / first components: the list keeps its arity but does not decode or verify
+					}
+					if hi == 4 {
+						if fi.Len < 200 {
+							continue
+						}
+						f.Index = fmt.Sprint(fi.Len / 2) // the second length prefix of a two-part list
+					}
 					p := f.P(sc.P())
 					p["conc"] = 1
 					id := fmt.Sprintf("W1/small/concurrency=1/%s/%s", sc.proto, f.String())
